@@ -9,7 +9,7 @@ import unitlib as U
 from common import sx, rng_for
 
 ID = 'C04'
-LEAN_MODULES = ['Cellml.Props.C04']
+LEAN_MODULES = ['Cellml.Expr.InferLemmas', 'Cellml.Props.C04']
 N = {'quick': 60, 'thorough': 1600}
 PER_CTX = 25
 RULE = ('random unit families (clusters of equal dimension and different scale) with 4-7 variables; per family %d '
@@ -265,3 +265,42 @@ def tag(case, obs):
             kk = r['out'][0] if r['out'][0] == 'ok' else r['out'][1]
             k[kk] = k.get(kk, 0) + 1
     return ' '.join('%s=%d' % kv for kv in sorted(k.items()))
+
+
+MANIFEST = {
+    'technique': ('Lean 4 theorems (induction on the expression) relating a model of UnitCalculator.traverse to the CellML '
+                  'unit rules on semantic units + differential correspondence of the model with evaluate_units'),
+    'text': ('Proved in Lean for every registry (unit family), every variable environment and every expression '
+             '(lean/Cellml/Props/C04.lean with lean/Cellml/Expr/Spec.lean, InferLemmas.lean; standard axioms only). '
+             'The CellML rules are written twice, independently of pint containers and of the magnitudes the code carries '
+             'along: as a function specUnit and as an inductive typing relation HasUnit on semantic units (SI scale as '
+             'prime exponents, root units); specUnit decides HasUnit and the unit is unique (specUnit_hasUnit, '
+             'hasUnit_specUnit, hasUnit_unique). infer_sound / infer_consistent / infer_sound_scale_dims: if traverse '
+             'returns a unit and every exponent is numeric (a numeric leaf or a product of numeric leaves), then the '
+             'expression is consistent under the rules (equal units for the operands of sums and the pieces of '
+             'piecewise, dimensionless exponents, dimension-zero function arguments) and the returned container has '
+             'exactly the scale, root units and dimension the rules derive from the leaves. infer_complete_err: an '
+             'expression with numeric exponents to which the rules give no unit ends in an error; infer_rejects, '
+             'infer_rejects_sum: relations, booleans, two-argument functions, empty piecewise, unknown nodes never get '
+             'a unit, operands of different meaning cannot be added (InputArgumentsInvalidUnitsError). '
+             'infer_error_class / infer_error_trichotomy / pyErrors_subset: every failure is a UnitError subclass, or '
+             'one of ZeroDivisionError / OverflowError / TypeError raised by a magnitude operation (**, derivative '
+             'quotient, exp, floor / ceiling) that occurs in the expression, or lies outside the exact model (infinity, '
+             'nan, undeclared variable, untracked magnitude in a power). PARTIAL: the numeric-exponent hypothesis of '
+             'infer_sound excludes the known finding wrong-unit:composite-exponent (proved counterexample: '
+             '(0.5 s)**(_2 + _3) is reported as s**2, the rules give s**5; the unrestricted statement is refuted in '
+             'Lean); infer_unit_errors_only_partial gives "UnitError or a unit, nothing else" only for expressions '
+             'without power, exp, floor / ceiling, derivative (the three known findings non-UnitError:* are proved '
+             'reachable in the model). Exponents that are variables with initial values are outside the hypothesis. '
+             'hasUnit_denotes (numbers read in the inferred unit are the physical value) is not part of this check. '
+             'The model is tied to units.py by a seeded correspondence check: random unit families and type-directed '
+             'expressions built as real SymPy objects through Model.create_quantity / add_variable, each also with one '
+             'leaf mutated to another dimension, passed to UnitStore.evaluate_units and compared (outcome class, '
+             'returned unit as dimension and scale) with the compiled model; an independent exact evaluator in Python '
+             'decides consistency and the true unit of every case and searches for failing inputs.'),
+    'note': ('Trusted: Lean kernel; propext, Classical.choice, Quot.sound; the translator for _TRIG_FUNCTIONS and the unit '
+             'tables; the correspondence harness (exprlib.py, c04.py). pint 0.18 container arithmetic and SymPy '
+             'canonicalisation are modelled, not verified. Magnitudes beyond the double range, complex and irrational '
+             'magnitudes are outside the exact model (answered `unsupported`). Piecewise conditions are not inspected, '
+             'by the code and by the rules as stated in the property.'),
+}
